@@ -652,4 +652,276 @@ def HSet.difference (sh : Shuffle σ) (s : HSet α) (sets : List (HSet α)) (g :
   let (t, st) := s.clone st
   hDiffLoop sh t sets g st
 
+/-! ## the heap machine: set objects as Go has them — a slice header over a shared store of arrays
+
+The functional Model and the slice-store section above cannot show what aliasing would do: their set
+objects carry their members as a value.  Here a set object is a *slice header* (`buf`, `len`; the capacity is
+the length of array `buf`) plus its callback, the members are whatever the store holds at `buf[0:len]`
+(`Obj.view`), and every mutation is a write into the store as the three Go files code it:
+
+* `make([]T, n)` (+ `copy`) — a new array (`Clone`, `CloneEmpty`, `New…`, `RemoveAll`);
+* `append(s.members, v)`, `append(s.members[:low], append([]T{val}, s.members[low:]...)...)` — when
+  `len+1 ≤ cap` the cells of the object's *own* array are overwritten (cells beyond the new length keep
+  their old values), otherwise a new array with `grow` spare cells is allocated (`grow` is a parameter:
+  Go's growth rule); `sorted.add` allocates the temporary array of its inner `append` first;
+* `append(s.members[:i], s.members[i+1:]...)` — the tail is shifted down inside the object's own array (the
+  last cell keeps its old value).
+
+If two live objects shared an array, `Remove` on one would change what the other one holds — in this
+machine too.  `Props/C16.lean` proves that this never happens: the machine keeps "distinct registers own
+distinct arrays" and is observationally equal to the functional register machine `stepOp`, for every
+history.  Reads (`find`, `Contains`, `Equal`, `All`, the match functions …) are the functional ones applied
+to the current views. -/
+
+namespace Hp
+
+structure Heap (α : Type) where
+  arrays : List (List α)
+
+def Heap.size (H : Heap α) : Nat := H.arrays.length
+def Heap.get (H : Heap α) (b : Nat) : List α := (H.arrays[b]?).getD []
+def Heap.set (H : Heap α) (b : Nat) (arr : List α) : Heap α := ⟨H.arrays.set b arr⟩
+/-- a new array; its identity is the next free index -/
+def Heap.alloc (H : Heap α) (arr : List α) : Heap α × Nat := (⟨H.arrays ++ [arr]⟩, H.arrays.length)
+
+/-- a set object: callback + slice header -/
+structure Obj (α : Type) where
+  impl : Impl α
+  buf : Nat
+  len : Nat
+
+/-- `s.members` as the store has it now -/
+def Obj.view (H : Heap α) (o : Obj α) : List α := (H.get o.buf).take o.len
+/-- the set object as the functional Model sees it -/
+def Obj.abs (H : Heap α) (o : Obj α) : MSet α := ⟨o.impl, o.view H⟩
+
+/-- `make` (+ `copy`): a new object with an array of its own holding `m` and spare cells `pad` -/
+def Obj.fresh (H : Heap α) (impl : Impl α) (m pad : List α) : Heap α × Obj α :=
+  let r := H.alloc (m ++ pad)
+  (r.1, ⟨impl, r.2, m.length⟩)
+
+/-- the slice of `o` becomes `m'`: written over the object's own array when it fits (cells beyond `m'` keep
+their values), otherwise into a new array with spare cells `pad` -/
+def Obj.store (H : Heap α) (o : Obj α) (m' pad : List α) : Heap α × Obj α :=
+  let arr := H.get o.buf
+  if m'.length ≤ arr.length then (H.set o.buf (m' ++ arr.drop m'.length), { o with len := m'.length })
+  else
+    let r := H.alloc (m' ++ pad)
+    (r.1, { o with buf := r.2, len := m'.length })
+
+/-- one round of `Add` -/
+def add1 (grow : Nat → Nat) (H : Heap α) (o : Obj α) (v : α) : Outcome (Heap α × Obj α) := do
+  let s' ← (o.abs H).add1 v
+  if s'.members.length = (o.view H).length then return (H, o) -- already a member
+  else
+    -- sorted.add: the inner append([]T{val}, s.members[low:]...) lives in an array of its own
+    let H := match o.impl with
+      | .sorted _ => (H.alloc [v]).1
+      | _ => H
+    return o.store H s'.members (List.replicate (grow s'.members.length) v)
+
+/-- one round of `Remove` (the result is never longer, so it is always written in place) -/
+def remove1 (H : Heap α) (o : Obj α) (v : α) : Outcome (Heap α × Obj α) := do
+  let s' ← (o.abs H).remove1 v
+  if s'.members.length = (o.view H).length then return (H, o) else return o.store H s'.members []
+
+def add (grow : Nat → Nat) : Heap α → Obj α → List α → Outcome (Heap α × Obj α)
+  | H, o, [] => .ok (H, o)
+  | H, o, v :: vs => do
+    let (H, o) ← add1 grow H o v
+    add grow H o vs
+
+def remove : Heap α → Obj α → List α → Outcome (Heap α × Obj α)
+  | H, o, [] => .ok (H, o)
+  | H, o, v :: vs => do
+    let (H, o) ← remove1 H o v
+    remove H o vs
+
+/-- `RemoveAll`: `s.members = make([]T, 0)` -/
+def removeAll (H : Heap α) (o : Obj α) : Heap α × Obj α := Obj.fresh H o.impl [] []
+/-- `Clone`: `make([]T, len(s.members))`, `copy` -/
+def clone (H : Heap α) (o : Obj α) : Heap α × Obj α := Obj.fresh H o.impl (o.view H) []
+def cloneEmpty (H : Heap α) (o : Obj α) : Heap α × Obj α := Obj.fresh H o.impl [] []
+def new (H : Heap α) (impl : Impl α) : Heap α × Obj α := Obj.fresh H impl [] []
+
+/-- `for m := range set.All() { t.Add(m) }` -/
+def addEach (grow : Nat → Nat) : Heap α → Obj α → List α → Outcome (Heap α × Obj α)
+  | H, t, [] => .ok (H, t)
+  | H, t, m :: ms => do
+    let (H, t) ← add grow H t [m]
+    addEach grow H t ms
+
+def removeEach : Heap α → Obj α → List α → Outcome (Heap α × Obj α)
+  | H, t, [] => .ok (H, t)
+  | H, t, m :: ms => do
+    let (H, t) ← remove H t [m]
+    removeEach H t ms
+
+/-- the operands are read from the store as it is when their turn comes -/
+def unionLoop (sh : Shuffle σ) (grow : Nat → Nat) : Heap α → Obj α → List (Obj α) → σ → Outcome (Heap α × Obj α × σ)
+  | H, t, [], g => .ok (H, t, g)
+  | H, t, u :: us, g => do
+    let (ms, g) ← (u.abs H).all sh g
+    let (H, t) ← addEach grow H t ms
+    unionLoop sh grow H t us g
+
+def union (sh : Shuffle σ) (grow : Nat → Nat) (H : Heap α) (s : Obj α) (sets : List (Obj α)) (g : σ) :
+    Outcome (Heap α × Obj α × σ) :=
+  let r := clone H s
+  unionLoop sh grow r.1 r.2 sets g
+
+def diffLoop (sh : Shuffle σ) : Heap α → Obj α → List (Obj α) → σ → Outcome (Heap α × Obj α × σ)
+  | H, t, [], g => .ok (H, t, g)
+  | H, t, u :: us, g => do
+    let (ms, g) ← (u.abs H).all sh g
+    let (H, t) ← removeEach H t ms
+    diffLoop sh H t us g
+
+def difference (sh : Shuffle σ) (H : Heap α) (s : Obj α) (sets : List (Obj α)) (g : σ) :
+    Outcome (Heap α × Obj α × σ) :=
+  let r := clone H s
+  diffLoop sh r.1 r.2 sets g
+
+/-- `for _, m := range s.members { if isInAll { t.Add(m) } }` (`ms` is the receiver's slice, read once) -/
+def interLoop (grow : Nat → Nat) (sets : List (Obj α)) : Heap α → Obj α → List α → Outcome (Heap α × Obj α)
+  | H, t, [] => .ok (H, t)
+  | H, t, m :: ms => do
+    if (← allContain m (sets.map (Obj.abs H))) then
+      let (H, t) ← add grow H t [m]
+      interLoop grow sets H t ms
+    else interLoop grow sets H t ms
+
+def intersection (grow : Nat → Nat) (H : Heap α) (s : Obj α) (sets : List (Obj α)) : Outcome (Heap α × Obj α) :=
+  let ms := s.view H
+  let r := cloneEmpty H s
+  interLoop grow sets r.1 r.2 ms
+
+def selectLoop (grow : Nat → Nat) (p : α → Bool) : Heap α → Obj α → List α → Outcome (Heap α × Obj α)
+  | H, t, [] => .ok (H, t)
+  | H, t, m :: ms => do
+    if p m then
+      let (H, t) ← add grow H t [m]
+      selectLoop grow p H t ms
+    else selectLoop grow p H t ms
+
+def selectMatch (grow : Nat → Nat) (H : Heap α) (s : Obj α) (p : α → Bool) : Outcome (Heap α × Obj α) :=
+  let ms := s.view H
+  let r := cloneEmpty H s
+  selectLoop grow p r.1 r.2 ms
+
+/-- `for _, m := range s.members { if p(m) { matched.Add(m) } else { unmatched.Add(m) } }` -/
+def partitionLoop (grow : Nat → Nat) (p : α → Bool) : Heap α → Obj α → Obj α → List α → Outcome (Heap α × Obj α × Obj α)
+  | H, t, u, [] => .ok (H, t, u)
+  | H, t, u, m :: ms => do
+    if p m then
+      let (H, t) ← add grow H t [m]
+      partitionLoop grow p H t u ms
+    else
+      let (H, u) ← add grow H u [m]
+      partitionLoop grow p H t u ms
+
+def partitionMatch (grow : Nat → Nat) (H : Heap α) (s : Obj α) (p : α → Bool) : Outcome (Heap α × Obj α × Obj α) :=
+  let ms := s.view H
+  let r₁ := cloneEmpty H s
+  let r₂ := cloneEmpty r₁.1 s
+  partitionLoop grow p r₂.1 r₁.2 r₂.2 ms
+
+abbrev State (α σ : Type) := List (Obj α) × Heap α × σ
+
+def getObjs (regs : List (Obj α)) : List Nat → Option (List (Obj α))
+  | [] => some []
+  | j :: js =>
+    match regs[j]?, getObjs regs js with
+    | some s, some ss => some (s :: ss)
+    | _, _ => none
+
+/-- one operation on the heap machine.  Operations that only read are the functional ones on the current
+views; the others write the store as described above. -/
+def stepOp (sh : Shuffle σ) (grow : Nat → Nat) (st : State α σ) : Op α → Outcome (State α σ × Obs α)
+  | .add i vs =>
+    match st.1[i]? with
+    | none => .ok (st, .bad)
+    | some o => do let (H, o) ← add grow st.2.1 o vs; return ((st.1.set i o, H, st.2.2), .unit)
+  | .remove i vs =>
+    match st.1[i]? with
+    | none => .ok (st, .bad)
+    | some o => do let (H, o) ← remove st.2.1 o vs; return ((st.1.set i o, H, st.2.2), .unit)
+  | .removeAll i =>
+    match st.1[i]? with
+    | none => .ok (st, .bad)
+    | some o => let r := removeAll st.2.1 o; .ok ((st.1.set i r.2, r.1, st.2.2), .unit)
+  | .clone d i =>
+    match st.1[i]? with
+    | some o => if d < st.1.length then let r := clone st.2.1 o; .ok ((st.1.set d r.2, r.1, st.2.2), .unit)
+                else .ok (st, .bad)
+    | none => .ok (st, .bad)
+  | .cloneEmpty d i =>
+    match st.1[i]? with
+    | some o => if d < st.1.length then let r := cloneEmpty st.2.1 o; .ok ((st.1.set d r.2, r.1, st.2.2), .unit)
+                else .ok (st, .bad)
+    | none => .ok (st, .bad)
+  | .new d impl =>
+    if d < st.1.length then let r := new st.2.1 impl; .ok ((st.1.set d r.2, r.1, st.2.2), .unit)
+    else .ok (st, .bad)
+  | .union d i js =>
+    match st.1[i]?, getObjs st.1 js with
+    | some s, some sets =>
+      if d < st.1.length then do
+        let (H, t, g) ← union sh grow st.2.1 s sets st.2.2
+        return ((st.1.set d t, H, g), .elems (t.view H))
+      else .ok (st, .bad)
+    | _, _ => .ok (st, .bad)
+  | .inter d i js =>
+    match st.1[i]?, getObjs st.1 js with
+    | some s, some sets =>
+      if d < st.1.length then do
+        let (H, t) ← intersection grow st.2.1 s sets
+        return ((st.1.set d t, H, st.2.2), .elems (t.view H))
+      else .ok (st, .bad)
+    | _, _ => .ok (st, .bad)
+  | .diff d i js =>
+    match st.1[i]?, getObjs st.1 js with
+    | some s, some sets =>
+      if d < st.1.length then do
+        let (H, t, g) ← difference sh st.2.1 s sets st.2.2
+        return ((st.1.set d t, H, g), .elems (t.view H))
+      else .ok (st, .bad)
+    | _, _ => .ok (st, .bad)
+  | .select d i p =>
+    match st.1[i]? with
+    | some s =>
+      if d < st.1.length then do
+        let (H, t) ← selectMatch grow st.2.1 s p
+        return ((st.1.set d t, H, st.2.2), .elems (t.view H))
+      else .ok (st, .bad)
+    | none => .ok (st, .bad)
+  | .partitionM d e i p =>
+    match st.1[i]? with
+    | some s =>
+      if d < st.1.length ∧ e < st.1.length then do
+        let (H, t, u) ← partitionMatch grow st.2.1 s p
+        return (((st.1.set d t).set e u, H, st.2.2), .elems2 (t.view H) (u.view H))
+      else .ok (st, .bad)
+    | none => .ok (st, .bad)
+  -- the operations that only read
+  | op => do
+    let (r, obs) ← C16.stepOp sh (st.1.map (Obj.abs st.2.1), st.2.2) op
+    return ((st.1, st.2.1, r.2), obs)
+
+def runOps (sh : Shuffle σ) (grow : Nat → Nat) : List (Op α) → State α σ → Outcome (State α σ × List (Obs α))
+  | [], st => .ok (st, [])
+  | op :: ops, st => do
+    let (st, o) ← stepOp sh grow st op
+    let (st, os) ← runOps sh grow ops st
+    return (st, o :: os)
+
+/-- freshly constructed sets: register `k` owns the empty array `k` -/
+def initRegs : Nat → List (Impl α) → List (Obj α)
+  | _, [] => []
+  | k, impl :: rest => ⟨impl, k, 0⟩ :: initRegs (k + 1) rest
+
+def initHeap (impls : List (Impl α)) : Heap α := ⟨impls.map fun _ => []⟩
+
+end Hp
+
 end AlgoVerif.C16
